@@ -148,7 +148,23 @@ theorem path_params_complete (cfg : ApiCfg) (v : Version) (strict : Bool) (V : O
     simp only [Option.map_some]
     have hi : (specPathKey op0.path, item') ∈ paths := mem_of_lookup_some _ _ _ hl
     cases hl2 : (sortByKey (item'.map fun mo => (mo.1, mo.2.map (projSchema v)))).lookup (specMember op0.method) with
-    | none => rfl
+    | none =>
+      -- a stored method always has its member (`build_members`): the lookup cannot fail for one of the seven
+      simp only [Bool.or_eq_true, Bool.not_eq_eq_eq_not, Bool.not_true]
+      by_cases hstd : [s "get", s "put", s "post", s "delete", s "options", s "head", s "patch"].contains (specMember op0.method) = true
+      · exfalso
+        have hsm : specMember op0.method ∈ storedMembers := by
+          simp only [List.contains_eq_mem, List.mem_cons, List.not_mem_nil, or_false, decide_eq_true_eq] at hstd
+          simp only [storedMembers, List.mem_cons, List.not_mem_nil, or_false]
+          rcases hstd with h | h | h | h | h | h | h <;> simp [h]
+        have hmm := methodMember_of_spec hsm
+        have hi' : (convertPath op0.path, item') ∈ paths := by rw [convertPath_eq_spec]; exact hi
+        have hk := build_members env ops paths comps hb op0 hop0 _ hmm item' hi'
+        obtain ⟨mo, hmo, hmk⟩ := List.mem_map.1 hk
+        have : specMember op0.method ∈ (sortByKey (item'.map fun mo => (mo.1, mo.2.map (projSchema v)))).map (·.1) :=
+          List.mem_map.2 ⟨(mo.1, mo.2.map (projSchema v)), mem_sortByKey.2 (List.mem_map.2 ⟨mo, hmo, rfl⟩), hmk⟩
+        exact lemma_lookup_ne_none _ _ this hl2
+      · exact Or.inr (by simpa using hstd)
     | some o'' =>
       simp only []
       have hm := mem_sortByKey.1 (mem_of_lookup_some _ _ _ hl2)
